@@ -3,6 +3,11 @@
 import json
 
 CHECKS = {
+ "C20": dict(level="exploration", engine="E3",
+   technique="exhaustive enumeration of CID-prefix / payload / tamper grids and of block-size sequences through the real block verification and batching functions, independent digest recomputation",
+   text="Inbound: every (version, codec, hash code incl. all 12 computable codes found by scanning 131k codes, claimed length) prefix x data size, every truncation / trailing byte / non-minimal / overflowing varint of valid prefixes, every single-byte tamper of payloads: a delivered block must carry the bytes handed in and a CID whose digest is an independent SHA-2 (or code-table) hash of exactly those bytes; malformed or uncomputable prefixes must be dropped; encode->decode->verify round trip for every computable combination. Outbound: all block-size sequences of length <=5 over 7 sizes with small limits, all sequences around the real 2 MiB / 4 MiB limits with full wire decode, and the many-tiny-blocks overhead family: every batch within limits, exact in-order exactly-once concatenation minus oversized blocks, termination.",
+   note="'Fits a message' is read as block size <= MAX_BATCH_SIZE. Reference digests: sha2 crate for 0x12/0x13, multihash code table for the rest. Two defects found and repaired (fix commits recorded in known_findings.json).",
+   design="§4 C20"),
  "C15": dict(level="model_checking", engine="E1",
    technique="explicit-state BFS to closure over all reply/failure/clock histories of the real QueryEngine against an adaptive adversary, per-transition monitors",
    text="For every query kind (find-node, get-record x quorum, get-providers, put/add-provider lookup phases) and every (replication, parallelism) in {1,2,3}^2, all seed sets of size <=2 and all orders in which in-flight peers fail, send the wrong message kind, or answer with ANY peer list of bounded size over universe+local+themselves are explored to closure on the real engine (4-5 remote peers). Monitors: never contact local / twice / unlearned; fresh in-flight <= parallelism (with virtual clock jumps past the 10 s slow-peer threshold); deadlock freedom; exactly one terminal, nothing after it; success lists = answered peers, sorted, <= replication, every closer learned peer contacted; records reported exactly once, no request after quorum; providers deduplicated. Put/announce tracking: success iff quorum many sends succeeded, for all event orders over <=3 peers.",
